@@ -34,7 +34,7 @@ def forwards_bound(h: ast.ExceptHandler) -> bool:
 
 def cancellation_handlers(an: Analysis, functions=None) -> list[tuple[FunctionInfo, ast.ExceptHandler]]:
     out = []
-    for fi in functions if functions is not None else an.prog.functions.values():
+    for fi in functions if functions is not None else an.prog.scan_functions():
         hs = [n for n in fi.own_nodes() if isinstance(n, ast.ExceptHandler)]
         if not hs:
             continue
@@ -61,7 +61,7 @@ def swallowing(an: Analysis, fi: FunctionInfo, h: ast.ExceptHandler) -> list[tup
 
 def suppress_calls(an: Analysis, functions=None):
     out = []
-    for fi in functions if functions is not None else an.prog.functions.values():
+    for fi in functions if functions is not None else an.prog.scan_functions():
         for n in fi.own_nodes():
             if isinstance(n, ast.Call) and an.callee(fi, n) == "contextlib.suppress":
                 names = {(dotted(a) or "").rsplit(".", 1)[-1] for a in n.args}
@@ -72,7 +72,7 @@ def suppress_calls(an: Analysis, functions=None):
 
 def uncancel_calls(an: Analysis, functions=None):
     out = []
-    for fi in functions if functions is not None else an.prog.functions.values():
+    for fi in functions if functions is not None else an.prog.scan_functions():
         for n in fi.own_nodes():
             if isinstance(n, ast.Call) and isinstance(n.func, ast.Attribute) and n.func.attr == "uncancel":
                 out.append((fi, n))
@@ -89,7 +89,7 @@ def check(an: Analysis) -> None:
         "every except handler in src/haiway whose effective caught set includes asyncio.CancelledError re-raises the same exception on "
         "all its paths, or forwards the bound exception into a future/queue; no contextlib.suppress(BaseException/CancelledError); no Task.uncancel()",
     )
-    total = sum(1 for fi in prog.functions.values() for n in fi.own_nodes() if isinstance(n, ast.ExceptHandler))
+    total = sum(1 for fi in prog.scan_functions() for n in fi.own_nodes() if isinstance(n, ast.ExceptHandler))
     hs = cancellation_handlers(an)
     ob.note(f"{total} except handlers in the package, {len(hs)} can catch CancelledError")
     if total < 10:
